@@ -1216,7 +1216,138 @@ def _model_repeat_n(ex, body, st, bb, t, c, args, frame, cont, target, nt, span)
             yield r
 
 
+def _run_closure(ex, body, st, bb, frame, cb, clos, argterms, target, nt, span, model):
+    """inline closure `cb` with the given argument terms; yields (state, ret)"""
+    st.events.append(Event("hof", bb, frame, body, target=target, ntarget=nt, args=[clos] + list(argterms), closure=cb.name,
+                           span=span, model=model))
+    tup = ("agg", "tuple", None, tuple(argterms), None, ())
+    for (st3, exi, ret) in ex._inline(cb, st, [clos, tup], frame, bb, body, untuple=True):
+        if exi[0] != "return":
+            yield (st3, None, exi if exi[0] == "diverge" else ("retry-inner", cb.name))
+        else:
+            yield (st3, ret, None)
+
+
+def _opt_cases(st, o, bb, frame, body, span):
+    """-> list of (state, is_some, payload) for an Option-valued term"""
+    if isinstance(o, tuple) and o[0] == "agg" and o[2] in ("Some", "None"):
+        return [(st, o[2] == "Some", o[3][0] if o[2] == "Some" and o[3] else None)]
+    known = st.known.get(("disc", o))
+    out = []
+    for is_some in (True, False):
+        if known is not None and not _consistent(known, 1 if is_some else 0):
+            continue
+        s2 = st.fork()
+        s2.known[("disc", o)] = 1 if is_some else 0
+        s2.events.append(Event("cond", bb, frame, body, term=("disc", o), value=1 if is_some else 0, exp=False, span=span,
+                               is_bool=False))
+        out.append((s2, is_some, ("field", "0", ("variant", "Some", o)) if is_some else None))
+    return out
+
+
+def _some(x):
+    return ("agg", "std::option::Option", "Some", (x,), 1, ("0",))
+
+
+_NONE = ("agg", "std::option::Option", "None", (), 0, ())
+
+
+def _mk_option_model(kind):
+    def model(ex, body, st, bb, t, c, args, frame, cont, target, nt, span):
+        o = args[0]
+        fidx = {"map": 1, "and_then": 1, "is_some_and": 1, "map_or": 2, "map_or_else": 2, "unwrap_or_else": 1,
+                "filter": 1}[kind]
+        clos = args[fidx] if len(args) > fidx else None
+        cb = ex._closure_body(clos)
+        if cb is None:
+            return
+        dcb = ex._closure_body(args[1]) if kind == "map_or_else" else None
+        for (s2, is_some, payload) in _opt_cases(st, o, bb, frame, body, span):
+            if kind == "unwrap_or_else":
+                if is_some:
+                    for r in cont(s2, payload):
+                        yield r
+                else:
+                    for (s3, ret, ex_) in _run_closure(ex, body, s2, bb, frame, cb, clos, [], target, nt, span, "runs-iff-None"):
+                        if ex_ is not None:
+                            yield (s3, ex_, None)
+                            continue
+                        for r in cont(s3, ret):
+                            yield r
+                continue
+            if not is_some:
+                if kind in ("map", "and_then", "filter"):
+                    res = _NONE
+                elif kind == "is_some_and":
+                    res = ("c", 0, "bool")
+                elif kind == "map_or":
+                    res = args[1]
+                elif kind == "map_or_else":
+                    if dcb is None:
+                        return
+                    for (s3, ret, ex_) in _run_closure(ex, body, s2, bb, frame, dcb, args[1], [], target, nt, span, "runs-iff-None"):
+                        if ex_ is not None:
+                            yield (s3, ex_, None)
+                            continue
+                        for r in cont(s3, ret):
+                            yield r
+                    continue
+                for r in cont(s2, res):
+                    yield r
+                continue
+            for (s3, ret, ex_) in _run_closure(ex, body, s2, bb, frame, cb, clos, [payload], target, nt, span, "runs-iff-Some"):
+                if ex_ is not None:
+                    yield (s3, ex_, None)
+                    continue
+                res = _some(ret) if kind == "map" else ret
+                for r in cont(s3, res):
+                    yield r
+    return model
+
+
+def _model_bool_then(ex, body, st, bb, t, c, args, frame, cont, target, nt, span):
+    """bool::then(b, f): Some(f()) iff b"""
+    b, clos = args[0], args[1] if len(args) > 1 else None
+    cb = ex._closure_body(clos)
+    if cb is None:
+        return
+    neg = False
+    key = b
+    while isinstance(key, tuple) and key[0] == "un" and key[1] == "Not":
+        key = key[2]
+        neg = not neg
+    vals = [0, 1]
+    if isinstance(key, tuple) and key[0] == "c" and isinstance(key[1], int):
+        vals = [key[1]]
+    known = st.known.get(key)
+    for v in vals:
+        if known is not None and isinstance(known, int) and known != v:
+            continue
+        s2 = st.fork()
+        if not (isinstance(key, tuple) and key[0] == "c"):
+            s2.known[key] = v
+            s2.events.append(Event("cond", bb, frame, body, term=key, value=v, exp=False, span=span, is_bool=True))
+        truth = bool(v) != neg
+        if not truth:
+            for r in cont(s2, _NONE):
+                yield r
+            continue
+        for (s3, ret, ex_) in _run_closure(ex, body, s2, bb, frame, cb, clos, [], target, nt, span, "runs-iff-true"):
+            if ex_ is not None:
+                yield (s3, ex_, None)
+                continue
+            for r in cont(s3, _some(ret)):
+                yield r
+
+
 HIGHER_ORDER = {
+    "std::option::Option::map": _mk_option_model("map"),
+    "std::option::Option::and_then": _mk_option_model("and_then"),
+    "std::option::Option::is_some_and": _mk_option_model("is_some_and"),
+    "std::option::Option::map_or": _mk_option_model("map_or"),
+    "std::option::Option::map_or_else": _mk_option_model("map_or_else"),
+    "std::option::Option::unwrap_or_else": _mk_option_model("unwrap_or_else"),
+    "core::bool::then": _model_bool_then,
     "std::thread::LocalKey::with": _model_with,
     "std::thread::LocalKey::try_with": _model_try_with,
     "std::result::Result::unwrap_or_else": _model_unwrap_or_else,
